@@ -160,6 +160,11 @@ class Column(ComponentSchema[PolarsCheckObjects]):
                 lazy=lazy,
                 inplace=inplace,
             )
+
+        if is_dataframe:
+            # return the same kind of object that was passed in
+            output = output.collect()
+
         return output
 
     @property
